@@ -124,14 +124,16 @@ KIND_HEAVY = {"C05", "C07", "C08", "C09"}
 # ---------------------------------------------------------------------------------------------- manifest tables
 ENGINES = [
     ("hist", ["C01", "C02", "C03", "C04", "C05", "C06", "C07", "C08", "C09", "C10", "C16", "C18"], "random valid operation histories over a pool of vectors, all monitors after every step"),
+    ("matrix", ["C20"], "one cell per documented operation x parameter-list category x allocator kind: compiled by g++ and clang++, then executed under ASan/UBSan with a postcondition"),
 ]
-CLAIMED = sorted(HIST_PROPS)
 ENGINE_OF = {p: "hist" for p in HIST_PROPS}
+ENGINE_OF["C20"] = "matrix"
+CLAIMED = sorted(ENGINE_OF)
 LEVEL = {}
-LEVEL_TEXT = {}
-LEVEL_NOTE = {}
-TECHNIQUE = {}
-NOT_APPLICABLE = [{"property_id": p, "reason": "check under construction in this round (engine not built yet); see DESIGN.md section 5"} for p in ["C11", "C12", "C13", "C14", "C15", "C17", "C19", "C20"]]
+LEVEL_TEXT = {"C20": "Exhaustive over a declared finite matrix (operation x parameter-list category x value-type category x allocator kind): every cell is compiled with two compilers and the compiled cell is executed under ASan/UBSan and the ledger with a postcondition. Ill-formedness is a build-time observation of the generated unit (the honest limit of this family for C20, see DESIGN.md)."}
+LEVEL_NOTE = {"C20": "Trusted: g++ 12 and clang++ 14 as arbiters of well-formedness, the curated representative parameter list per category (thorough adds sampled lists and all allocator kinds), the harness postconditions."}
+TECHNIQUE = {"C20": "runtime monitoring of generated instantiation units: each operation cell compiled (g++, clang++) then executed under ASan/UBSan + ledger allocator with postconditions"}
+NOT_APPLICABLE = [{"property_id": p, "reason": "check under construction in this round (engine not built yet); see DESIGN.md section 5"} for p in ["C11", "C12", "C13", "C14", "C15", "C17", "C19"]]
 
 
 def tier_limits(tier):
@@ -195,10 +197,103 @@ def run_hist_check(prop, tier):
                                     "decides only the executions produced: bounded capacity, span length and history length"])
 
 
+# ---------------------------------------------------------------------------------------------- C20 matrix
+MATRIX_CELLS = ["construct(size...)", "construct(size..., allocator)", "default construct", "copy construct", "move construct", "copy assign", "move assign", "emplace_back",
+                "pop_back", "erase(position)", "erase(first,last)", "clear", "reserve", "swap", "vector comparisons", "reference comparisons", "element comparisons", "iteration",
+                "structured bindings: reference", "structured bindings: const_reference", "structured bindings: element", "reference assignment / swap", "element construction",
+                "element assignment / swap / reference = element", "accessors"]
+MATRIX_CONFIGS = [
+    # one list per parameter-list category x value-type category
+    ("P:u32,P:f32", ["std", "s000"]), ("P:char,P:u32@8", ["s111"]), ("P:str,P:Tr8", ["s010"]), ("P:uptr,P:u16", ["s000"]),
+    ("P:u32,F:f32", ["s100"]), ("F:f32@8,P:u32@16,F:f32", ["std"]), ("F:str,P:str", ["s001"]), ("F:uptr,P:uptr", ["s111"]),
+    ("P:u32,C:u64@8,V:f32", ["s000", "std"]), ("C:u32,V:u16,P:u8", ["s110"]), ("C:u64@8,V:f32@16,P:u32", ["s011"]), ("C:u64@8,V:str,P:str", ["s000"]), ("C:u64@8,V:uptr,P:uptr", ["stdm"]),
+    ("F:f32,P:u32,C:u64@8,V:f32", ["s000d"]), ("F:Tr8,C:u8,V:u16@2,P:Tr4@4", ["s101"]), ("F:uptr,C:u32,V:str", ["s000"]),
+]
+
+
+def matrix_units(tier, seed):
+    configs = list(MATRIX_CONFIGS)
+    units = []
+    if tier == "thorough":
+        configs = [(c, sorted(vf.KINDS)) for c, _ in configs] + [(c, k) for c, k in sampled_configs(seed, 12)]
+    for cfg, kinds in configs:
+        for k in kinds:
+            for fl in (["asan", "casan"] if tier == "thorough" or True else ["asan"]):
+                units.append(Unit("matrix", cfg, k, fl, {"seed": seed}, len(MATRIX_CELLS), batch=len(MATRIX_CELLS)))
+    return units
+
+
+def run_matrix_check(tier):
+    """C20: build every (configuration, allocator kind) unit with g++ and clang++; a unit that does not compile is split
+    into one unit per cell to find the ill-formed operations (the compiler diagnostic is the witness)."""
+    import concurrent.futures as cfu
+    t0 = time.time()
+    units = matrix_units(tier, vf.SEED)
+    ill = []  # (unit, cell index, diagnostic)
+    good_units = []
+
+    def try_build(u):
+        try:
+            u.bin = vf.build(u.engine, u.cfg, u.kind, u.flavour, u.std, u.extra_defs)
+            return True
+        except vf.BuildError:
+            return False
+    with cfu.ThreadPoolExecutor(vf.JOBS) as ex:
+        ok = list(ex.map(try_build, units))
+    split = []
+    for u, o in zip(units, ok):
+        if o:
+            good_units.append(u)
+        else:
+            for ci in range(len(MATRIX_CELLS)):
+                cu = Unit("matrix", u.cfg, u.kind, u.flavour, {"seed": vf.SEED, "from": ci, "to": ci + 1}, 1, extra_defs=("VF_ONLY_OP %d" % ci,), label="%s|cell%d" % (u.label, ci))
+                cu.cell = ci
+                split.append(cu)
+
+    def try_build_cell(cu):
+        try:
+            cu.bin = vf.build(cu.engine, cu.cfg, cu.kind, cu.flavour, cu.std, cu.extra_defs)
+            return None
+        except vf.BuildError as e:
+            return str(e)
+    with cfu.ThreadPoolExecutor(vf.JOBS) as ex:
+        res = list(ex.map(try_build_cell, split))
+    harness_errors = []
+    for cu, r in zip(split, res):
+        if r is None:
+            good_units.append(cu)
+        else:
+            diag = "\n".join(l for l in r.splitlines() if "error" in l)[:1500]
+            # a diagnostic that does not mention the library is the harness's own fault
+            if "cntgs" not in r:
+                harness_errors.append(r[:1000])
+            cu.events.append({"t": "viol", "case": cu.cell, "step": 0, "props": "C20", "kind": "ill_formed", "op": MATRIX_CELLS[cu.cell], "pre": vf.cfg_category(cu.cfg), "x": cu.cfg + "/" + cu.kind + "/" + vf.FLAVOURS[cu.flavour][0], "detail": diag, "unit": cu.label})
+            cu.case_ends.append({"t": "case_end", "case": cu.cell, "nt": {"C20": 1}, "hash": "ill%s%d" % (cu.label, cu.cell), "trace": ["%s on %s / %s: does not compile" % (MATRIX_CELLS[cu.cell], cu.cfg, cu.kind)]})
+    # run what compiled
+    jobs = []
+    for u in good_units:
+        lo = u.args.get("from", 0)
+        hi = u.args.get("to", len(MATRIX_CELLS))
+        a = dict(u.args)
+        a.pop("from", None)
+        a.pop("to", None)
+        u.args = a
+        jobs.append((u, lo, hi))
+    with cfu.ThreadPoolExecutor(vf.JOBS) as ex:
+        list(ex.map(lambda j: vf.run_batch(*j), jobs))
+    all_units = good_units + [cu for cu, r in zip(split, res) if r is not None]
+    cells = sum(len(u.case_ends) for u in all_units)
+    return vf.conclude("C20", tier, "exploration", all_units, harness_errors,
+                       "finite matrix operation x parameter-list category x value-type category x allocator kind: every cell is compiled by g++ and clang++ (a rejected cell is the violation, the diagnostic the witness) and then executed under ASan/UBSan with a postcondition; every cell is distinct and counts as non-trivial",
+                       t0, extra_cov={"exhaustive": True, "cells": cells, "cell_names": MATRIX_CELLS, "compilers": ["g++ 12", "clang++ 14"]},
+                       assumptions=["well-formedness is observed at build time of the generated unit, the same unit is then executed under the sanitizers (see DESIGN.md C20)"])
+
+
 def setup():
     units = []
     for prop in ["C01"]:
         units += hist_units(prop, "quick", vf.SEED)
+    units += matrix_units("quick", vf.SEED)
     errs = []
     t0 = time.time()
     import concurrent.futures as cfu
@@ -228,6 +323,8 @@ def units_for(prop, tier, seed):
 def run_check(prop, tier):
     if prop in HIST_PROPS:
         return run_hist_check(prop, tier)
+    if prop == "C20":
+        return run_matrix_check(tier)
     sys.stderr.write("no check for %s\n" % prop)
     return 2
 
